@@ -10,6 +10,7 @@ import warnings
 import numpy as np
 
 from .. import real
+from ..gen import annotations as G
 from ..gen import signatures as GS
 from ..gen import trees as GT
 from ..model import dims as M
@@ -48,7 +49,7 @@ def required_counters(tier):
         "failing_check_bound_before_mismatch": 100,
         "bindings_compared": 1000,
         "innocence_checked": 200,
-        "annot_cases": 50,
+        "annot_cases": 50, "tree_later_leaf_failed_after_binding": 30,
         "cause_present_checked": 300,
         "cause_absent_checked": 300,
     }
@@ -74,8 +75,27 @@ def gen_case(rng):
                 params.append({"name": name, "kind": "union", "specs": [spec, alt1], "shape": sh})
             else:
                 params.append({"name": name, "kind": "union", "specs": [alt1, spec], "shape": sh})
-        elif r < 0.32 and not any(t.kind == "symbolic" for t in M.parse(spec)):
-            params.append({"name": name, "kind": "tree", "spec": spec, "struct": rng.choice((None, "T", "T")), "shape": sh, "form": rng.choice(("list2", "dict", "tuple1", "nested"))})
+        elif r < 0.38 and not any(t.kind == "symbolic" for t in M.parse(spec)):
+            # leaves are drawn one by one: later leaves may widen a '*#v' binding or rebind nothing, and the
+            # LAST leaf is sometimes broken, so that earlier leaves of the same (failing) tree had bound axes
+            nleaves = rng.choice((1, 2, 2, 3))
+            toks = M.parse(spec)
+            s_, v_ = {}, {}
+            leaves = []
+            for li in range(nleaves):
+                shp = list(sh) if li == 0 else list(G.gen_shape_for(rng, toks, s_, v_, {}, p_perturb=0.0, max_rank=4))
+                vd, why, s2, v2 = M.match(toks, shp, s_, v_, {})
+                if vd == "ok":
+                    s_, v_ = s2, v2
+                leaves.append(shp)
+            if nleaves > 1 and rng.random() < 0.5:
+                last = leaves[-1]
+                if last:
+                    k = rng.randrange(len(last))
+                    last[k] = last[k] + rng.choice((1, 2, 5))
+                else:
+                    leaves[-1] = [7]
+            params.append({"name": name, "kind": "tree", "spec": spec, "struct": rng.choice((None, None, "T", "T")), "shape": sh, "leaves": leaves, "form": rng.choice(("list", "dict", "tuple", "nested"))})
         else:
             params.append({"name": name, "kind": "arr", "spec": spec, "shape": sh})
     case = {"params": params, "ret": sig["ret"], "retshape": retshape}
@@ -94,15 +114,15 @@ def gen_case(rng):
 
 
 def tree_value(p):
-    a = real.np_array(p["shape"])
+    arrs = [real.np_array(sh) for sh in p["leaves"]]
     f = p["form"]
-    if f == "list2":
-        return [a, a]
+    if f == "list":
+        return list(arrs)
     if f == "dict":
-        return {"k": a, "j": (a,)}
-    if f == "tuple1":
-        return (a,)
-    return ([a, None], {"z": a})
+        return {f"k{i}": a for i, a in enumerate(arrs)}  # sorted-key order == leaf order
+    if f == "tuple":
+        return tuple(arrs)
+    return ([arrs[0], None], {"z": tuple(arrs[1:])})
 
 
 def build(case):
@@ -154,9 +174,12 @@ def model_walk(case, subset=None):
             isl = lambda y: isinstance(y, np.ndarray)
             s2, v2 = s, v
             vd = "ok"
-            for leaf in TM.leaves(val, isl):
+            for li, leaf in enumerate(TM.leaves(val, isl)):
                 vd, why, s2, v2 = M.match(M.parse(p["spec"]), leaf.shape, s2, v2, {})
                 if vd != "ok":
+                    if li > 0 and (s2 != s or v2 != v):
+                        flags["bound_before_mismatch"] = True
+                        flags["tree_later_leaf_failed"] = True
                     break
             if vd == "ok" and p["struct"]:
                 st = TM.struct(val, isl)
@@ -282,6 +305,8 @@ def run_case(rec, rng, case=None, rngkey=None):
                 rec.count("earlier_check_rolled_back")
             if flags["bound_before_mismatch"]:
                 rec.count("failing_check_bound_before_mismatch")
+            if flags.get("tree_later_leaf_failed"):
+                rec.count("tree_later_leaf_failed_after_binding")
             if not isinstance(exc, TypeCheckError) or not isinstance(exc, TypeError):
                 rec.violation("error-type", desc, f"ill-typed call: expected jaxtyping.TypeCheckError, got {type(exc).__name__ if exc else 'no error'}", mechanism="wrong-error-type")
                 continue
